@@ -4,13 +4,23 @@
 
 Three layers (DESIGN.md, section C16):
  L1 dispatch / coercion / domain  -> model (generic functions over ElemOps, Float instance in the
-    driver op `math`) compared with the implementation; the oracle classifies error-vs-number by the
+    driver op `math`; ABS through the exact-rational model of `fn`, POWER on two ints through
+    `math.powint`) compared with the implementation; the oracle classifies error-vs-number by the
     mathematical domain, computed here with exact rationals;
  L2 identities among the functions -> theorems (real instance) + identities evaluated through real
     formulas by the oracle;
  L3 "to within floating-point rounding" -> NOT proved (trusted base: libm approximates the reals); it is
     monitored: every in-domain result is compared with an independent 60-digit reference written here
-    with `decimal` (series / argument reduction with a long pi), relative 1e-9 (absolute 1e-12 near 0).
+    with `decimal` (series / argument reduction with a long pi), relative 1e-9 plus absolute 1e-12.
+
+Case kinds (model = compared with the Lean model through the named driver op; every kind goes to the oracle):
+ fn           one call NAME(args): the one- and two-argument functions and PI; model `math` (<= 4 ulps); judge_fn
+ abs          the same for ABS; model `fn` (ints exactly, floats <= 1 ulp); judge_fn
+ powint       POWER on two Python ints with exponent >= 0; model `math.powint` (exact); judge_fn
+ pv           one call PV(args); model `math` (<= 4 ulps); judge_pv (the annuity equation)
+ ident        the formulas of one entry of IDENT at one argument tuple; oracle only (judge_ident)
+ rand         n draws of RAND(); oracle only (judge_rand)
+ randbetween  n draws of RANDBETWEEN(a, b); oracle only (judge_rand)
 """
 import decimal
 import math
@@ -29,49 +39,113 @@ _MT = ['ABS', 'ACOS', 'ACOSH', 'ACOT', 'ACOTH', 'SIN', 'SINH', 'ASIN', 'ASINH', 
 FUNCTIONS = ['hotxlfp.formulas.mathtrig:%s' % n for n in _MT] + [
     'hotxlfp.formulas.financial:PV', 'hotxlfp.formulas.utils:parse_number', 'hotxlfp.formulas.utils:any_is_error',
     'hotxlfp.helper.number:to_number']
-RULE = ('per function: a grid of special points (0, +-1, +-1/2, +-2, the floats next to +-1, multiples of the float pi/2, '
-        '1e-300, 1e300, the smallest denormal where harmless) plus seeded reals sign*m*2^k with 53-bit and short '
-        'mantissas over the binades k in [-40,40] (some up to +-990), inside and outside the domain; Python ints '
-        '(up to 10^30 for the direct libm functions), logicals, numeric text ("0.5", " 12 ", "1_000", "1e3"), non-numeric '
-        'text ("abc", "", "nan", "inf", "1,5"), blank, lists, error values, wrong arity. Identities (sin^2+cos^2, '
-        'TAN=SIN/COS, COT=1/TAN, EXP(LN x), LOG(x,b)=LN x/LN b, f(f^-1 y)=y and f^-1(f x)=x on the principal ranges, '
-        'DEGREES(RADIANS x), the angle of ATAN2) are evaluated through real formulas with the argument bound to a '
-        'variable. PV: rate in (-1, 10] incl. 0 and |rate| >= 1e-4, integer and fractional periods, type in {0,1}, '
-        'optional arguments omitted / blank. The integer-overflow guard of POWER and PV (two Python ints - logicals and '
-        'integer text count - with |base| >= 2, exponent >= 1 and (bit_length(|base|)-1)*exponent >= 1024 give #NUM! at once): '
-        'for every bit length 2..70 of the base (and bases up to 10^400, both signs) the smallest exponent that meets it and '
-        'the one below, exponents up to 10^18, bases 0 / 1 / -1 with huge exponents, float twins of the same arguments '
-        '(which must NOT meet it); PV with integer rate (growth 1+rate of either sign) x integer periods on both sides of '
-        'the bound. RAND and RANDBETWEEN(a,b) (integer a <= b, also as text / logical): '
-        'many draws. Non-trivial = the implementation returned a finite number (for a random case: at least two '
-        'distinct draws or a one-point range); distinct = distinct case dict.')
+RULE = ('case kinds fn / abs (fn for ABS) / powint / pv / ident / rand / randbetween; arguments are bound to variables, one '
+        'Parser.parse per formula. Per one-argument function (21 unary ones, LOG with its default base, ABS): 44 special points '
+        '(0, +-1, +-1/2, +-2, 3, 10, 100, the floats next to +-1, float multiples of pi/4 up to 2pi, +-1e-5, +-1e-300, +-1e300, '
+        '1e15, 1e22, e, +-709, 690, 745, -745.13, 0.1, 0.3, logicals), 5e-324 / -5e-324 / 1e-310 where harmless (not ACOSH, '
+        'ACOTH, COT), the ints +-10^20, 2^53, 2^53+1, 12 numeric texts ("0.5", " 12 ", "1_000", "1e3", "+3", ".5", "007", '
+        '"1e-320" ...), 19 non-numeric texts ("abc", "", " ", "1,5", "nan", "inf", "TRUE", "0x10", "1e400", non-ASCII digits '
+        '...), blank, 3 lists, 4 error values, no and 3 arguments, plus n seeded arguments (n = 25*scale quick, 4000 thorough): '
+        'reals sign*m*2^k with 52-bit or (40%) 10-bit fractions over k in [-40,40], [-3,3] or (7%) [-990,990], ints up to 50 / '
+        '10^6 / 10^30, padded or signed numeric text, logicals, special points; for ASIN, ACOS, ATANH, ACOTH, ACOSH 60% in '
+        '[-1.2,1.2] or at +-(1 +- 2^k), k >= -54; for EXP, SINH, COSH 40% uniform in [-760,760]; for SIN, COS, TAN, COT 30% at '
+        'k*pi/2 (|k| <= 40) plus 0 or 2^[-50,-20]. DEGREES beyond 1e300 and COT at 0 < |x| < 1e-300 are not generated (known '
+        'findings), nor the texts float() reads so: DEGREES of "inf", "infinity", "-inf", "1e400", "-1e999", COT of "1e-320". '
+        '20 calls with the argument written in the formula (1/0, "abc", "0.25", TRUE). ATAN2 / LOG / POWER: a 17x17 grid (0, '
+        '+-1, +-2, +-1/2, 3, 10, 0.0, 1e-300, +-1e300, 1e-5, the floats next to 1, TRUE), 3n seeded rounds (ATAN2: any pair and '
+        'one with zero coordinates; LOG: positive x in 2^+-200, base in 2^+-60 or (15%) 1 +- 2^-k; POWER: positive base with '
+        'real exponent, negative base with integer / fractional exponent, zero base, int base up to 30 with int exponent in '
+        '[-8,40], base +-2^[-300,300] with exponent +-2^[-3,9]), texts / blank / lists / errors in either position, wrong '
+        'arity, LOG with one argument, PI() and PI(1). powint: every POWER case on two Python ints (not logicals) with exponent '
+        '>= 0 is repeated for the exact comparison, plus 10 fixed pairs (10^308, 10^309, +-2^1023, 2^1024, 0^0 ...). The '
+        'integer-overflow guard of POWER and PV (two Python ints - logicals and integer text count - with |base| >= 2, exponent '
+        '>= 1 and (bit_length(|base|)-1)*exponent >= 1024 give #NUM! at once): for every bit length 2..70 of the base and g '
+        'seeded ones in 71..1201 (g = 40*scale quick, 2000 thorough; both signs) the smallest exponent that meets it and the '
+        'one below, up to 53 bits also the float twin of the base (which must NOT meet it) and PV with rate = base-1 (growth of '
+        'either sign), payment 1, at both exponents and at one up to 10^6 beyond with seeded payment / future value / type; 53 '
+        'fixed POWER pairs (bases up to +-10^400, exponents up to 10^18, 0 and negative exponents, bases 0 / 1 / -1 with huge '
+        'exponents), 19 pairs mixing logicals, integer text, floats and float text, g seeded int pairs (base up to 2^53, '
+        'exponent up to 10^18); 45 fixed PV calls (integer, logical, text and float rate x periods on both sides of the bound, '
+        'periods up to 10^15+1 and negative, a non-number payment, future value 10^400). PV: 32 fixed calls (optional arguments '
+        'omitted / blank, text and logical arguments, rate 0 / -1, 5000 periods, non-numbers, blank or list in a required '
+        'position, 2 and 6 arguments) and p seeded ones (p = 600*scale quick, 80000 thorough): rate 0 in three spellings (15%), '
+        'one of 20 fixed rates in [-0.9, 10] incl. the ints 1, 2, 3 (50%) or uniform in (-0.95, 1.5) with |rate| >= 1e-4; '
+        'periods int in [0,400] or [-20,-1], fractional in [0.25,60], 0.5, 360, kept at |periods*ln(1+rate)| <= 600 (int rate '
+        'with int periods: periods in [-10,20]); payment and future value ints or reals; type in {0, 1, TRUE, FALSE, 0.0, 1.0}; '
+        '3 / 4 / 5 arguments (15 / 15 / 70%). ident: 28 identities (sin^2+cos^2, TAN=SIN/COS, COT=1/TAN, EXP(LN x), LN(EXP x), '
+        'LOG(x,b)=LN x/LN b, LOG10 x=LN x/LN 10=LOG x, f(f^-1 y)=y and f^-1(f x)=x on the principal ranges for the 7 circular / '
+        'hyperbolic pairs, TANH(ACOTH x)=1/x, DEGREES(RADIANS x) and back, the angle of ATAN2, SQRT(x)^2, SQRT(POWER(x,2))=ABS '
+        'x, PI()=ACOS(-1)=4*ATAN(1)) evaluated through real formulas with the argument bound to a variable: 44 arguments per '
+        'round, i rounds (i = 40*scale quick, 6000 thorough), 15 fixed points for the ATAN2 angle (the origin is left out). '
+        'RAND(): 4d draws; RANDBETWEEN(a,b): 17 fixed pairs (ints, equal bounds, +-10^12, integral floats, text, logicals, a > '
+        'b, non-integral, non-numbers) and r seeded int pairs with b-a in {0, 1, 2, 5, 100, 10^6} (r = 10*scale quick, 800 '
+        'thorough), d draws each (d = 40 quick, 400 thorough). About 7400 cases quick (21300 at scale 5), 501000 thorough. '
+        'Compared with the Lean model: fn and pv (driver op `math`, equal or <= 4 ulps apart, errors by code), abs (op `fn`: '
+        'ints exactly, floats <= 1 ulp), powint (op `math.powint`, exactly) - about 5300 quick, 233000 thorough - unless an '
+        'argument is text the model does not read (exponent form, non-ASCII, beyond the float range) or an int above 2^53 '
+        '(ACOT, ACOTH, POWER, PV) / 10^30 (the others); ident, rand, randbetween are oracle-only. When a proof or the '
+        'correspondence broke, search() adds (oracle only, up to the first failure) the function cases with n = 400 for the '
+        'disagreeing function names (all if none), 5000 seeded PV (if PV disagreed or no name), 300 identity rounds and the '
+        'guard cases with g = 400: about 38500 cases. No time budget, no shrinking, each case counts once. Non-trivial = the '
+        'implementation returned a finite number (ident: every formula did; rand: at least two distinct draws; randbetween: '
+        'every draw an int and at least two distinct ones or a one-point range); distinct = distinct case dict.')
 TRUSTED = ['L3 is not proved: libm (sin, cos, tan, asin, acos, atan, atan2, sinh, cosh, tanh, asinh, acosh, atanh, sqrt, log, '
            'pow) approximates the real functions the theorems are about; monitored by the 60-digit reference of this '
-           'plugin (relative 1e-9, absolute 1e-12)',
+           'plugin (relative 1e-9 plus absolute 1e-12: a result below 1e-12 in magnitude is only held to the absolute bound)',
+           'the reference itself: AGM pi, argument reduction by pi/2 at a precision grown with the argument, Taylor series, '
+           'decimal ln / exp / sqrt at 70 digits, arguments taken as exact rationals',
            'the Float instance of the model (Lean `Float` = IEEE double, the same libm) with CPython\'s math-module error '
-           'conventions written by hand (math_1: NaN from non-NaN / inf from finite = exception; m_log; float_pow)',
-           'random.random / random.randint obey their documented contracts (hypotheses of rand_range / randbetween_range)',
-           'Python ints are compared with the model up to 2^53 in the hand-composed functions (ACOT, ACOTH, POWER, PV; '
-           'exact big-int arithmetic is not modelled) and up to 10^30 elsewhere - except POWER on two ints with a '
-           'non-negative exponent, which is compared exactly at every size (driver op math.powint: the guard, the exact '
-           'power, the OverflowError of float()); numeric text is compared in the decimal '
-           'forms the model reads (no exponent, inside the float range)',
+           'conventions written by hand (math_1: NaN from non-NaN / inf from finite = exception; m_log; float_pow); a model '
+           'double and the implementation\'s number agree when equal or at most 4 ulps apart, a NaN / inf of the model must be '
+           'the same non-finite number',
+           'random.random / random.randint obey their documented contracts (hypotheses of rand_range / randbetween_range); RAND '
+           'and RANDBETWEEN are not compared with the model, their draws are judged for type and range only',
+           'Python ints are compared with the model up to 2^53 in ACOT, ACOTH, POWER, PV (int arithmetic on the argument before '
+           'any conversion to float; exact big-int arithmetic is not modelled) and up to 10^30 elsewhere - except POWER on two '
+           'ints with a non-negative exponent, which is compared exactly at every size (driver op math.powint: the guard, the '
+           'exact power, the OverflowError of float()); ABS goes through the exact-rational model (driver op fn: ints exactly, '
+           'floats within 1 ulp); numeric text is compared in the forms the model reads (ASCII decimal, inner underscores '
+           'allowed, no exponent, inside the float range)',
            'PV with 1+rate < 0 and a non-integral number of periods returns a Python complex number; the model says #ERROR! '
-           '(outside the statement\'s rate > -1; not generated)']
+           '(outside the statement\'s rate > -1; not generated)',
+           'the runner classifies the parser\'s answer as error code / int / finite float / nan or inf / other (a logical, '
+           'complex or list result is not a number); the 4 known findings (DEGREES(1e308), COT(1e-320), PV(0.5,10,1e308), '
+           'PV(1e-10,7.09e12,0)) are replayed from known_findings.json on every run and reported as known']
 ASSUMPTIONS = ['arguments are confined to magnitudes where the true result and the obvious intermediates are representable: '
-               'a result whose true magnitude exceeds 1e300 (or an intermediate of that size: (1+rate)^periods, x*180) '
-               'may be a number or an error; a NaN or inf NUMBER is flagged wherever it is returned',
+               'an argument above 10^300 in magnitude is not judged (the floats +-1e300 exceed 10^300 and are not), a result '
+               'whose true magnitude exceeds 1e300 (EXP / SINH / COSH beyond 720, a power with y*ln x > 700, PV with '
+               '|periods*ln(1+rate)| > 690 or a term above 1e300) may be a number or an error; a NaN or inf NUMBER is flagged '
+               'wherever it is returned, also for blank / list arguments and wrong arity',
+               'a finite int or float result is "the value" when within relative 1e-9 + absolute 1e-12 of the 60-digit '
+               'reference; a logical denotes 0 / 1, numeric text (sign, digits, fraction, exponent, surrounding blanks; any '
+               'Unicode digits) the number it spells; every other text ("", " ", "nan", "inf", "TRUE", "0x10") and an error '
+               'value require an error result',
+               'domains: SQRT x >= 0, LN x > 0, LOG x > 0 with base > 0 and != 1 (default 10), ASIN / ACOS |x| <= 1, ACOSH '
+               'x >= 1, ATANH |x| < 1, ACOTH |x| > 1, COT x != 0 (no other float is a pole of COT or TAN), ATAN2 not at the '
+               'origin; ACOT x = atan(1/x) in (-pi/2, pi/2] with pi/2 at 0; ATAN2(x, y) = the angle of the point (x, y) in '
+               '(-pi, pi], x first',
                '"the real power exists": x>0, or x=0 and y>0, or x<0 and y an integer; 0^0 is not judged',
-               'which error code is returned outside the domain is not judged, except #DIV/0! for ATAN2 at the origin',
-               'blank and list arguments are not judged by the oracle (the model is still compared)',
-               'f(f^-1(y)) = y and f^-1(f(x)) = x are judged where the composition is well conditioned: TAN(ATAN y) for '
-               '|y| <= 1e6, ASIN(SIN x) / ACOS(COS x) 1e-3 inside the principal range, ATANH(TANH x) for |x| <= 6, '
-               'ACOSH(COSH x) for 1e-3 <= x <= 690',
-               'PV is judged for rate > -1 and type in {0,1}, terms below 1e300; the generator keeps |rate| >= 1e-4 (or rate = 0): '
+               'which error code is returned outside the domain or for a non-number is not judged, except #DIV/0! for ATAN2 at '
+               'the origin',
+               'blank and list arguments, text with an underscore ("1_000"), numeric text beyond the float range ("1e400") and '
+               'wrong arity are not judged by the oracle (the model is still compared, except for exponent-form text)',
+               'identities are judged with relative 1e-9 of the larger side + absolute 1e-12 and every formula must return a '
+               'finite number; the ATAN2 angle a by COS a = x/r, SIN a = y/r with r = hypot(x, y) in doubles; PI() must equal '
+               'the double pi exactly. f(f^-1(y)) = y and f^-1(f(x)) = x are generated where the composition is well '
+               'conditioned: TAN(ATAN y) for |y| < 2^20, SIN(ASIN y) / COS(ACOS y) / TANH(ATANH y) on [-1,1] resp. inside it, '
+               'SINH(ASINH y) and COT(ACOT y) up to 2^+-900, COSH(ACOSH y) for y >= 1, ASIN(SIN x) / ACOS(COS x) 1e-3 inside '
+               'the principal range, ATAN(TAN x) inside (-pi/2, pi/2), ACOT(COT x) there with |x| > 1e-6, ASINH(SINH x) and '
+               'LN(EXP x) for |x| <= 700, ATANH(TANH x) for |x| <= 6, ACOSH(COSH x) for 1e-3 <= x <= 690',
+               'PV is judged by the annuity equation pv*R + pmt*(1+rate*type)*(R-1)/rate + fv = 0, R = (1+rate)^periods (rate 0: '
+               'pv + pmt*periods + fv = 0), residual within 1e-9 of the largest term + 1e-12, for rate > -1 and type in {0,1}; '
+               'an omitted or blank future value / type counts as 0, a blank among the first three arguments is not judged, '
+               'a non-number among the five requires an error; the generator keeps |rate| >= 1e-4 (or rate = 0): '
                'for smaller rates the subtraction 1-(1+rate)^periods loses accuracy (candidate finding, witness '
                'PV(1e-12,1,-100) = 100.0089 instead of 99.9999999999)',
                'an integer argument beyond 2^53 and numeric text are judged at the double they are converted to',
-               'RANDBETWEEN is judged for integer-valued bounds a <= b']
+               'RAND: every draw is a float in [0,1). RANDBETWEEN is judged for integer-valued bounds a <= b (ints, integral '
+               'floats, integer text, logicals): every draw is an int in [a,b]; with a non-number bound every draw must be '
+               'an error; a > b, non-integral and blank bounds are not judged']
 EXHAUSTIVE = {'quick': False, 'thorough': False}
 
 REL = 1e-9
@@ -873,7 +947,8 @@ NONNUM = ['abc', '', ' ', '1,5', '1 2', '--1', 'nan', 'inf', 'infinity', '-inf',
 NUMTEXT = ['0.5', '-0.5', ' 12 ', '1_000', '1e3', '2E-2', '+3', '.5', '5.', '007', '-0', '1e-320']
 ODD = [None, [1.0, 2.0], [], [[1]], {'e': '#DIV/0!'}, {'e': '#N/A'}, {'e': '#VALUE!'}, {'e': '#NUM!'}]
 
-# where each function can be fed arbitrary magnitudes without leaving the representable region
+# the functions called with one argument (LOG with its default base; ABS is added by gen_fn_cases);
+# DENORMAL_OK: those that also get the denormals 5e-324 / -5e-324 / 1e-310
 UNARY = ['ACOS', 'ACOSH', 'ACOT', 'ACOTH', 'SIN', 'SINH', 'ASIN', 'ASINH', 'COS', 'COSH', 'COT', 'TAN', 'TANH', 'ATAN',
          'ATANH', 'SQRT', 'EXP', 'LN', 'LOG10', 'RADIANS', 'DEGREES', 'LOG']
 DENORMAL_OK = {'SIN', 'ASIN', 'SINH', 'ASINH', 'TAN', 'TANH', 'ATAN', 'ATANH', 'SQRT', 'ACOT', 'COS', 'COSH', 'ACOS', 'EXP',
@@ -881,7 +956,8 @@ DENORMAL_OK = {'SIN', 'ASIN', 'SINH', 'ASINH', 'TAN', 'TANH', 'ATAN', 'ATANH', '
 
 
 def _safe(name, a):
-    """keep the generator away from the known overflow findings (DEGREES / COT / PV beyond ~1e300)"""
+    """keep the generator away from the known overflow findings: DEGREES beyond 1e300, COT at 0 < |x| < 1e-300
+    (PV is kept in range by gen_pv_cases)"""
     if isinstance(a, str):
         try:
             a = float(a)
@@ -1187,7 +1263,8 @@ def gen_rand_cases(rng, n, draws):
     return out
 
 
-# the known findings (not repaired): witnesses listed in known_findings.json are replayed by the harness
+# the known findings (not repaired).  Documentation only: nothing reads this list; the harness replays the entries
+# of known_findings.json (the first four below; the candidate is not listed there)
 KNOWN_WITNESSES = [
     {'kind': 'fn', 'name': 'DEGREES', 'args': [1e308]},
     {'kind': 'fn', 'name': 'COT', 'args': [1e-320]},
